@@ -10,7 +10,7 @@ CONFIG = {
     'C02': dict(streams=[('td_exact', 880), ('td_wf', 480)], keep='ov'),
     'C03': dict(streams=[('bu_wf', 1040), ('mixed_wf', 360)], keep='ovm'),
     'C04': dict(streams=[('bu_wf', 1200), ('mixed_wf', 160)], keep='ov'),
-    'C05': dict(streams=[('inj_hidden', 1200), ('td_wf', 160)], keep='om'),
+    'C05': dict(streams=[('inj_hidden', 1200), ('siblings', 240), ('td_wf', 160)], keep='om'),
     'C06': dict(streams=[('inj_overlap', 1200), ('td_wf', 160)], keep='om'),
     'C07': dict(streams=[('inj_cycle', 1200)], keep='ov'),
     'C08': dict(streams=[('td_wf', 640), ('bu_wf', 400), ('multi', 80)], keep='od'),
@@ -31,6 +31,9 @@ def make_case(rng, stream, big=False):
         p = P.gen_roles_program(rng)
         steps, meta = P.gen_roles_history(rng, p, rng.randint(2, 5))
         return p, steps, norm_meta(meta, 'roles')
+    if stream == 'siblings':
+        p, steps = P.gen_sibling_program(rng)
+        return p, steps, norm_meta({}, 'td')
     if stream == 'multi':
         p = P.gen_multi_program(rng)
         steps = [['E', '0', '1'], ['S', '1', 'q', '0'], ['E', '0', '2'], ['S', '1', 'q', '0'], ['S', '1', 'q', '0']]
@@ -172,7 +175,7 @@ def run(prop, tier, seed, replay=None):
             if tier != 'quick':
                 n *= THOROUGH_FACTOR
             for i in range(n):
-                prog, steps, meta = make_case(rng, stream, big=(tier != 'quick' and i % 10 == 0))
+                prog, steps, meta = make_case(rng, stream, big=((tier != 'quick' and i % 10 == 0) or (tier == 'quick' and stream.startswith('inj_') and i % 4 == 0)))
                 cases.append((prog, steps, meta, P.case_tokens(prog, steps), stream))
     work = os.path.join(C.CACHE, 'run', '%s-%s-%d' % (prop, tier, os.getpid()))
     os.makedirs(work, exist_ok=True)
